@@ -127,3 +127,115 @@ def kept_events_violation(events, got, limit=6):
     if not any(i == len(got) for _, i in states):
         return f"the result holds events that were not given or repeats: {got} for given {sorted(events, key=lambda x: x[0])}"
     return None
+
+
+# ----------------------------------------------------------------------------- D17 / D17b / D17c: the mechanism, on plain data (audit round 4, B2 / B5)
+# A note whose note-on and note-off stand on ONE tick is listed on-then-off; every absolute view is kept in the order
+# (tick, channel, NOTE_OFF before NOTE_ON, pitch), so the next sort lists its note-off first.  normalise then (a) drops that note-off as an
+# orphan, (b) keeps the note-on as an open note, (c) counts every later note-on of that channel and pitch as a re-trigger (dropped) and every
+# later note-off as closing a re-trigger (dropped) — so every LATER note of the key is swallowed, not only the next one — and (d) removes the
+# note-on that never got its note-off at the end.  When another note of the key is sounding on that tick, the note-off closes THAT note instead.
+# The three functions below are that mechanism written from the description above on plain events (tick, type, channel, pitch, velocity); they
+# are used ONLY by known-finding predicates, to decide whether an observed damage is exactly this defect's — never as an oracle's expectation.
+
+from protocol import ON as _ON, OFF as _OFF          # noqa: E402
+
+
+class Detail(str):
+    """the text of a clause failure that also carries the facts it was built from (`.data`, a dict): known-finding predicates look at the
+    OUTCOME through `.data` instead of parsing the text (same convention as h2bars_util.Detail)"""
+    def __new__(cls, text, **data):
+        o = super().__new__(cls, text)
+        o.data = data
+        return o
+
+
+def data_of(f):
+    return getattr(f.get("detail"), "data", None) or {}
+
+
+def canonical_order(evs):
+    """the order every absolute view is kept in: stable by (tick, channel, note-off before note-on, pitch)"""
+    return sorted(evs, key=lambda e: (e[0], e[2], 0 if e[1] == _OFF else 1, e[3]))
+
+
+def drop_unpaired(evs):
+    """what normalising does to the note events of a list, in LIST order: per (channel, pitch) a counter of open note-ons; a note-on is kept
+    only when none is open, a note-off only when it closes the last open one (a note-off with none open is dropped); the kept note-on of a key
+    that is still open at the end is removed"""
+    cnt, first, kept = {}, {}, []
+    for i, e in enumerate(evs):
+        k = (e[2], e[3])
+        c = cnt.get(k, 0)
+        if e[1] == _ON:
+            cnt[k] = c + 1
+            if c == 0:
+                first[k] = i
+                kept.append(i)
+        elif e[1] == _OFF:
+            if c == 0:
+                continue
+            cnt[k] = c - 1
+            if c == 1:
+                kept.append(i)
+    dead = {first[k] for k, c in cnt.items() if c > 0}
+    return [evs[i] for i in kept if i not in dead]
+
+
+def merged_notes_model(lists, normalise_each=False):
+    """note events [(tick, type, channel, pitch, velocity)] of what merging the given event lists yields on the unchanged tree: each list
+    normalised in its listed order first when `normalise_each` (what loading does with every track of a file), then each put in canonical
+    order, concatenated, put in canonical order again and normalised"""
+    parts = [canonical_order(drop_unpaired(l) if normalise_each else l) for l in lists]
+    return drop_unpaired(canonical_order([e for p in parts for e in p]))
+
+
+def notes_of_events(evs):
+    """[(channel, pitch, onset, end, velocity)] of a well-formed event list, sorted"""
+    open_, out = {}, []
+    for (t, ty, ch, p, v) in evs:
+        if ty == _ON:
+            open_[(ch, p)] = (t, v)
+        elif ty == _OFF and (ch, p) in open_:
+            s, v0 = open_.pop((ch, p))
+            out.append((ch, p, s, t, v0))
+    return sorted(out)
+
+
+def sounding_of_events(evs):
+    """{(channel, pitch): merged intervals of positive length} of a well-formed event list (the canonical form oracle_util.sounding gives)"""
+    iv = {}
+    for (ch, p, s, e, _) in notes_of_events(evs):
+        if e > s:
+            iv.setdefault((ch, p), []).append((s, e))
+    out = {}
+    for k, lst in iv.items():
+        merged = []
+        for s, e in sorted(lst):
+            if merged and s <= merged[-1][1]:
+                merged[-1] = (merged[-1][0], max(merged[-1][1], e))
+            else:
+                merged.append((s, e))
+        out[k] = merged
+    return out
+
+
+def zero_length_keys(evs):
+    """(channel, pitch) of the notes of a list (note-on paired with the next note-off of its key, list order) that start and end on one tick"""
+    open_, out = {}, set()
+    for (t, ty, ch, p, v) in evs:
+        if ty == _ON:
+            open_[(ch, p)] = t
+        elif ty == _OFF and (ch, p) in open_:
+            if open_.pop((ch, p)) == t:
+                out.add((ch, p))
+    return out
+
+
+# ----------------------------------------------------------------------------- what a MIDI file can say about a time signature (audit round 4, A4b)
+
+def midi_representable_sig(num, den):
+    """a time-signature meta event (FF 58 04 nn dd cc bb) stores the numerator in ONE byte and the denominator as the EXPONENT of a power of
+    two in one byte: nn in 0..255, den = 2**dd with dd in 0..255.  6/6, 5/6, 3/3, 300/4 cannot be written to a MIDI file by anybody."""
+    ok_int = lambda x: isinstance(x, int) and not isinstance(x, bool)  # noqa: E731
+    return ok_int(num) and ok_int(den) and 0 <= num <= 255 and den >= 1 and den & (den - 1) == 0 and den.bit_length() - 1 <= 255
